@@ -431,6 +431,17 @@ def batt_cases(ctx, n_sys, faults):
             cutoff = v0 * rng.choice([1.0, 1.2])      # the probed battery is already at / below the cut-off: nothing is solved or stepped
         elif r1 < 0.12:
             cap0 = 0.0                                # ... or already empty
+        if not s._g.attrs["rails"].get(bat, "") and rng.random() < 0.5:
+            # the battery gets a rail name (the system is rebuilt from its projection with that rail)
+            try:
+                from rebuild import rebuild
+                st3 = project(s)
+                for c in st3["comps"]:
+                    if c["name"] == bat:
+                        c["rail"] = "RBAT"
+                s = rebuild(st3)
+            except Exception:
+                pass
         batref = bat
         brail = s._g.attrs["rails"].get(bat, "")
         if brail and rng.random() < 0.5:
